@@ -138,6 +138,12 @@ func (h *handler) Handle(ctx context.Context, header *protocol.RequestHeader, re
 				if strings.TrimSpace(name) == "" {
 					continue
 				}
+				// With ACLs on, only auto-create for a principal that could use
+				// the topic; anyone else must not be able to create topics by asking
+				// for their metadata.
+				if !h.allowAdmin(principal) && !h.allowTopic(principal, name, acl.ActionProduce) && !h.allowTopic(principal, name, acl.ActionFetch) {
+					continue
+				}
 				if err := h.ensureTopic(ctx, name, 0); err != nil {
 					return nil, fmt.Errorf("auto-create topic %s: %w", name, err)
 				}
